@@ -86,14 +86,32 @@ def sigma_swap() -> Sigma:
     return Sigma(selfswap=(("self",), ("p", 0)))
 
 
+def value_form(block: tuple) -> tuple:
+    """a function that only computes and returns a value (conditionals and returns, no other statement) is its value: one
+    ``return <expression>`` whatever the arrangement of its guards and intermediate results"""
+    from framelint.peval import value_expr
+    from framelint.canon import K_NONE
+    if block and all(isinstance(st, tuple) and st and st[0] in ("if", "ret", "assert") for st in block):
+        v = value_expr(tuple(block) + (("ret", K_NONE),))
+        if v is not None:
+            asserts = tuple(st for st in block if st[0] == "assert")
+            return asserts + (("ret", v),)
+    return block
+
+
 def check_closed(ctx: Ctx, fi: FuncInfo, sigma: Sigma, sname: str, opts: Optional[CanonOptions] = None,
                  post: Optional[Callable[[S], S]] = None) -> None:
-    c = canon_function(fi, ctx.model, opts)
+    c = value_form(canon_function(fi, ctx.model, opts))
     c2 = sigma.apply(c)
     if post is not None:
         c2 = post(c2)
+        c = post(c) if getattr(post, "both_sides", False) else c
     ctx.site(fi.where, f"canonical form closed under {sname}", statements=len(c))
     if c != c2:
+        # the same up to the names of locals and the order of independent statements?
+        from framelint.symm import canonical_labelling
+        if canonical_labelling(c) == canonical_labelling(c2):
+            return
         d = diff_paths(c, c2)
         ctx.report(fi.where, f"closed[{sname}] {d[0] if d else ''}",
                    f"{fi.qualname} is not invariant under the involution {sname}: one side of a symmetric "
@@ -102,11 +120,14 @@ def check_closed(ctx: Ctx, fi: FuncInfo, sigma: Sigma, sname: str, opts: Optiona
 
 def check_mirror(ctx: Ctx, fa: FuncInfo, fb: FuncInfo, sigma: Sigma, sname: str,
                  opts: Optional[CanonOptions] = None) -> None:
-    a = canon_function(fa, ctx.model, opts)
-    b = canon_function(fb, ctx.model, opts)
+    a = value_form(canon_function(fa, ctx.model, opts))
+    b = value_form(canon_function(fb, ctx.model, opts))
     a2 = sigma.apply(a)
     ctx.site(fa.where, f"{sname}({fa.qualname}) == {fb.qualname}", statements=len(a))
     if a2 != b:
+        from framelint.symm import canonical_labelling
+        if canonical_labelling(a2) == canonical_labelling(b):
+            return
         d = diff_paths(a2, b)
         ctx.report(fa.where, f"mirror[{sname}] {fb.qualname}: {d[0] if d else ''}",
                    f"{fa.qualname} and {fb.qualname} are not mirror images under {sname}",
